@@ -52,7 +52,7 @@ def instances(tier):
         out.append({"phase": "connecting", "gen": g, "quick_reinit": True})        # init() again while the old connect is still in flight
         out.append({"phase": "connecting", "gen": g, "quick_reinit": True, "close_latency": 0.0625})
         out.append({"phase": "initialised", "gen": g, "quick_reinit": True, "close_latency": 0.0625})   # init() again while shutdown() is still closing
-        for sc in ("down_queue", "connecting", "write_suspended", "write_suspended_lost", "backoff"):
+        for sc in ("down_queue", "connecting", "write_suspended", "write_suspended_lost", "backoff", "fault_then_slow_connect"):
             out.append({"phase": "sock_close", "gen": g, "scenario": sc})
         for st in range(6):
             out.append({"phase": "race", "gen": g, "step": st})
@@ -393,15 +393,23 @@ def _sock_close(ctx, p):
     g = Gen(p["gen"])
     sc = p["scenario"]
     entry = catalog.catalog(g)[3]
-    mode = {"accept": sc in ("connecting", "write_suspended", "write_suspended_lost", "backoff")}
+    mode = {"accept": sc in ("connecting", "write_suspended", "write_suspended_lost", "backoff", "fault_then_slow_connect")}
     lat = 3.0 if sc == "connecting" else 0
     ts = ctx.real("ts", 0, 7) if sc != "backoff" else ctx.real("ts", 1, 8)
+    if sc == "fault_then_slow_connect":
+        # a message is held until the first connection exists (0.75 s); its write - made by the connecting task itself -
+        # fails: two connection attempts are then pending (the immediate one of the reset, which takes 1 s, and the delayed
+        # retry of the attempt that has just failed); close() falls into that second
+        ts = 0.75 + ctx.real("dts", 0, 1.0, lo_strict=True)
     with Rig(ctx, g) as rig:
         if p.get("close_latency"):
             rig.net.close_latency = p["close_latency"]
         rig.net.on_connect = lambda net, n: (("accept", lat) if mode["accept"] else ("refuse",))
         if sc in ("write_suspended", "write_suspended_lost"):
             rig.net.on_drain = lambda conn, n: 4.0        # back-pressure: every drain() takes 4 s
+        if sc == "fault_then_slow_connect":
+            rig.net.on_connect = lambda net, n: ("accept", 0.75 if n == 0 else 1.0)
+            rig.net.on_drain = lambda conn, n: (ConnectionResetError("write fault") if (conn.index == 0 and n == 1) else None)
         res = {}
 
         def sender(i, retries):
